@@ -226,6 +226,10 @@ hstubs! { #[kani::unwind(4)] fn c11_c14_set_features_step() {
     let kb = Arc::new(KB::new(1, 256, offered, vec![1]));
     let mut h = mk_handler(kb.clone(), 1);
     let (ready, en, has_kick) = arbitrary_ring_state(&h);
+    // a STEP of the state machine: whatever earlier SET_OWNER / SET_FEATURES / SET_PROTOCOL_FEATURES left in the handler itself (seed
+    // C11-14: the enable-all-rings branch taken only on the FIRST SET_FEATURES since the last reset)
+    let (owned0, acked0, fa0, pf0): (bool, bool, u64, u64) = (kani::any(), kani::any(), kani::any(), kani::any());
+    h.owned = owned0; h.features_acked = acked0; h.acked_features = fa0; h.acked_protocol_features = pf0;
     h.vrings[0].set_queue_event_idx(kani::any());      // whatever an earlier SET_FEATURES left behind
     let f: u64 = kani::any();
     let r = h.set_features(f);
@@ -233,8 +237,10 @@ hstubs! { #[kani::unwind(4)] fn c11_c14_set_features_step() {
         // only subsets of the offered features are accepted; nothing reaches the queues or the backend otherwise
         assert!(r.is_err() && kb.acked_calls.load(Ordering::Relaxed) == 0 && kb.evidx_calls.load(Ordering::Relaxed) == 0);
         assert!(h.vrings[0].enabled() == en);
+        assert!(h.features_acked == acked0 && h.acked_features == fa0);        // a refused SET_FEATURES leaves the negotiation state alone
     } else {
         assert!(r.is_ok());
+        assert!(h.features_acked && h.acked_features == f);                    // the accepted set is what later feature checks see
         // without VHOST_USER_F_PROTOCOL_FEATURES every ring is enabled, with it `enabled` is left alone
         assert!(h.vrings[0].enabled() == if (f >> 30) & 1 == 0 { true } else { en });
         let ev = (f >> 29) & 1 == 1;
@@ -243,6 +249,7 @@ hstubs! { #[kani::unwind(4)] fn c11_c14_set_features_step() {
         assert!(kb.acked_calls.load(Ordering::Relaxed) == 1 && kb.acked.load(Ordering::Relaxed) == f);        // exactly the accepted bits
     }
     assert!(h.vrings[0].ready() == ready && h.vrings[0].kick_fd().is_some() == has_kick);
+    assert!(h.owned == owned0 && h.acked_protocol_features == pf0);            // frame: ownership and protocol features are not this message's business
     if !has_kick { assert!(reg_count() == 0); }
     check_reg_inv(&h);
     core::mem::forget(h); core::mem::forget(kb);
